@@ -284,6 +284,22 @@ def gen_case(r, version):
             # the link a path is waiting for, carrying an ID which is already in use
             _p, (f, fo, t, to, ov) = st_.model.missing_links()[0]
             ops.append(["collide_add", "L\t%s\t%s\t%s\t%s\t%s\tID:Z:%s" % (f, fo, t, to, ov, gen.choice(r, sorted(names))), "cross_type_on_placeholder"])
+        elif x < 0.23 and st_.model.segment_names():
+            # a line that uses its own identifier for one of the lines it mentions (an edge naming itself as
+            # segment, a link whose ID is the name of the segment it leaves, a path visiting "itself")
+            free = [n for n in H.FRESH[10:16] if n not in names and n not in st_.model.undefined_mentions()]
+            if not free:
+                continue
+            f_, a = gen.choice(r, free), gen.choice(r, st_.model.segment_names())
+            if version == "gfa1":
+                if "," in a:
+                    continue
+                text = gen.choice(r, ["L\t%s\t+\t%s\t-\t*\tID:Z:%s" % (f_, a, f_), "C\t%s\t+\t%s\t-\t0\t*\tID:Z:%s" % (a, f_, f_),
+                                      "P\t%s\t%s+,%s+\t*" % (f_, a, f_)])
+            else:
+                text = gen.choice(r, ["E\t%s\t%s+\t%s+\t0\t1\t0\t1\t*" % (f_, a, f_), "G\t%s\t%s-\t%s+\t5\t*" % (f_, f_, a),
+                                      "E\t%s\t%s+\t%s-\t0\t1\t0\t1\t*" % (f_, f_, f_)])
+            ops.append(["collide_add", text, "self_mention"])
         elif x < 0.4 and named:
             # collision attempts
             tgt = st_.model.recs[gen.choice(r, named)]
